@@ -69,7 +69,8 @@ def validate(ctx, traces, enforce, name, chunk_lines=1500, keep_sent=False):
         os.makedirs(d)
         for fn in ("TraceBroker.tla", "BrokerOps.tla", "MqttTopics.tla", "TraceBroker.cfg"):
             shutil.copy(os.path.join(VERIF, "spec", fn), d)
-        args = ["java", "-XX:+UseParallelGC", "-Xss64m", "-Xmx6g", "-cp",
+        os.makedirs(os.path.join(d, "_jtmp"), exist_ok=True)
+        args = ["java", "-XX:+UseParallelGC", "-Xss64m", "-Xmx6g", "-Djava.io.tmpdir=" + os.path.join(d, "_jtmp"), "-cp",
                 "/opt/veriftools/tla/tla2tools.jar:/opt/veriftools/tla/CommunityModules-deps.jar", "tlc2.TLC",
                 "-metadir", os.path.join(d, "_meta"), "-config", "TraceBroker.cfg", "-workers", "1", "-noGenerateSpecTE", "TraceBroker.tla"]
         try:
@@ -289,7 +290,8 @@ def model_histories(ctx, gencfg, n, observer=False):
     for fn in ("MqttBroker.tla", "MC_Broker.tla", "BrokerOps.tla", "MqttTopics.tla", gencfg + ".cfg"):
         shutil.copy(os.path.join(VERIF, "spec", fn), d)
     depth = int(re.search(r"MaxHist = (\d+)", open(os.path.join(d, gencfg + ".cfg")).read()).group(1))
-    args = ["java", "-XX:+UseParallelGC", "-Xss64m", "-Xmx4g", "-cp", "/opt/veriftools/tla/tla2tools.jar:/opt/veriftools/tla/CommunityModules-deps.jar",
+    os.makedirs(os.path.join(d, "_jtmp"), exist_ok=True)
+    args = ["java", "-XX:+UseParallelGC", "-Xss64m", "-Xmx4g", "-Djava.io.tmpdir=" + os.path.join(d, "_jtmp"), "-cp", "/opt/veriftools/tla/tla2tools.jar:/opt/veriftools/tla/CommunityModules-deps.jar",
             "tlc2.TLC", "-metadir", os.path.join(d, "_meta"), "-config", gencfg + ".cfg", "-workers", "1", "-noGenerateSpecTE",
             "-simulate", "num=%d" % n, "-depth", str(depth), "-seed", str(ctx.seed), "MC_Broker.tla"]
     try:
@@ -336,7 +338,7 @@ PROFILES = {
     "C04": dict(versions=[5, 5, 4], shared=0.1, rap=0.4, subid=0.6, qos=[0, 1, 2], retain=0.4, rh=[0, 0, 1, 2],
                 weights=dict(subscribe=7, unsubscribe=1, publish=9, disconnect=0, connect=1), maxqos=[0, 1, 2, 2]),
     "C05": dict(versions=[5, 5, 4], shared=0.15, qos=[0, 1], retain=0.7, empty_payload=0.25, rh=[0, 1, 2], topics=gen.TOPICS[:5],
-                weights=dict(subscribe=8, unsubscribe=1, publish=8, disconnect=1, connect=1), retain_avail=[1, 1, 1, 0]),
+                weights=dict(subscribe=8, unsubscribe=1, publish=8, disconnect=1, connect=1, resub_clean=2), retain_avail=[1, 1, 1, 0]),
     "C06": dict(versions=[5, 5, 4], shared=0.6, qos=[0, 1, 2], clients=["c1", "c2", "c3", "c4", "c5"], p_clean=0.8,
                 weights=dict(subscribe=8, unsubscribe=1, publish=10, disconnect=1, connect=2)),
     "C07": dict(versions=[5, 4, 3], shared=0.1, qos=[0, 1, 2], sys_topics=0.15, bad_filters=0.15, acl=3, p_single_filter=0.5,
@@ -368,11 +370,11 @@ def histories_for(ctx, pid, n):
 
 QOS_PROFILES = {
     "C08": dict(weights=dict(publish=10, ack=6, reconnect=1, drop=0, ping=1, dup2=8, rel=4, takeover=0), qos=[0, 1, 2, 2, 2], p_rel_now=0.25,
-                publishers=["c1", "c4"], sub_qos=[0, 1, 2]),
-    "C09": dict(weights=dict(publish=10, ack=8, reconnect=4, drop=1, ping=1, rel=3, takeover=2), rm=[1, 2, 0, 0], qos=[1, 1, 2, 2, 0], sei=[300]),
+                publishers=["c1", "c4"], sub_qos=[0, 1, 2], pubs_subscribe=True, p_low_pid=0.3),
+    "C09": dict(weights=dict(publish=10, ack=8, reconnect=4, drop=1, ping=1, rel=3, takeover=2), rm=[1, 2, 0, 0], qos=[1, 1, 2, 2, 0], sei=[300], p_ackdrop=0.12),
     "C10": dict(weights=dict(publish=10, ack=6, reconnect=1, drop=0, ping=1, rel=3, collide=6, takeover=0), qos=[1, 2], sei=[300],
                 max_packet_id=[0, 0, 4, 6]),
-    "C11": dict(weights=dict(publish=12, ack=10, reconnect=2, drop=0, ping=2, rel=4, takeover=1), rm=[1, 1, 2, 3], qos=[0, 1, 1, 2, 2], sei=[300],
+    "C11": dict(weights=dict(publish=12, ack=10, reconnect=3, drop=0, ping=2, rel=4, takeover=1), rm=[1, 1, 2, 3], rm_reconnect=[1, 1, 2], qos=[0, 1, 1, 2, 2], sei=[300],
                 recv_max=[1, 2, 3, 4], subs_publish=True, drain=True, p_rel_now=0.4),
     "C12": dict(weights=dict(publish=14, ack=8, reconnect=3, drop=1, ping=1, rel=2, takeover=1), rm=[1, 2, 0], qos=[1, 2], topics=[["a"], ["b"]], sei=[300],
                 filters=[["#"], ["a"], ["+"]], publishers=["c1"], subscribers=["c2"], drain=True, p_rel_now=1.0),
@@ -424,9 +426,9 @@ SESSION_PROFILES = {
     "C13": dict(weights=dict(connect=6, subscribe=2, publish=4, disconnect=2, netdrop=2, takeover=2, bad_connect=10, ackall=1), wills=0.2,
                 auth=["allow", "allow", "none", "acl"], maxqos=[2, 2, 1], retain_avail=[1, 1, 0], minproto=[3, 3, 4]),
     "C14": dict(weights=dict(connect=8, subscribe=6, publish=8, disconnect=2, netdrop=3, takeover=6, ackall=1, tick_clients=1), sei=[-1, 0, 30, 300], wills=0.0),
-    "C15": dict(weights=dict(connect=8, subscribe=6, publish=6, disconnect=4, netdrop=4, takeover=1, tick_clients=8, disc_sei=3, ackall=1), sei=[-1, 0, 30, 100, 300],
+    "C15": dict(weights=dict(connect=8, subscribe=6, publish=6, disconnect=4, netdrop=4, takeover=1, tick_clients=8, expiry_round=2, disc_sei=3, ackall=1), sei=[-1, 0, 30, 100, 300],
                 max_sess_expiry=[-1, -1, 50, 200]),
-    "C16": dict(weights=dict(connect=8, subscribe=2, publish=2, disconnect=4, netdrop=5, disc04=3, proto_err=2, takeover=4, tick_wills=8, tick_clients=2, ackall=1),
+    "C16": dict(weights=dict(connect=8, subscribe=2, publish=2, disconnect=4, netdrop=5, disc04=3, proto_err=2, takeover=4, tick_wills=8, tick_clients=2, expiry_round=3, ackall=1),
                 wills=0.9, will_delay=[0, 0, 20, 20, 200], sei=[-1, 0, 30, 300], p_clean=0.5),
 }
 
